@@ -247,9 +247,18 @@ fn reach<'tcx>(tcx: TyCtxt<'tcx>, t: Ty<'tcx>, seen: &mut BTreeSet<String>, out:
             if def.is_phantom_data() {
                 return;
             }
-            for f in def.all_fields() {
-                let ft = f.ty(tcx, args);
-                reach(tcx, ft, seen, out, depth + 1);
+            if def.did().is_local() {
+                for f in def.all_fields() {
+                    let ft = f.ty(tcx, args);
+                    reach(tcx, ft, seen, out, depth + 1);
+                }
+            } else {
+                // external ADT: an opaque owner of its type arguments (its private
+                // representation — raw pointers in Vec, counters in Rc — is not our business;
+                // the rule modules carry a table of what each external type means)
+                for a in args.iter().filter_map(|a| a.as_type()) {
+                    reach(tcx, a, seen, out, depth + 1);
+                }
             }
         }
         ty::Ref(_, inner, m) => {
